@@ -619,8 +619,10 @@ func c02RootOfTrust(r *core.Run, w *world.World, A, B, C *world.PKI, qA, qB *wor
 
 func init() {
 	register(&core.Check{
-		ID:    "C02",
-		Level: "exploration",
+		ID:        "C02",
+		Isolate:   true, // a pool that the code under test shares process-wide makes parallel runs crash (AddCert is not goroutine-safe)
+		RetrySafe: true,
+		Level:     "exploration",
 		Rule: "per run: seeded PKI A, look-alike PKI B (identical names, serials, validity; same or own key identifiers) and unrelated PKI C; quotes self-consistent under A and under B x 7 pools (nil/embedded, {A},{B},{A,B},{C},{A's intermediate},{}); 6 single-element substitutions / in-name-of forgeries; foreign chains whose leaf or intermediate carries a legal but unusual feature that stops path validation early (expired, not yet valid, critical SGX or unknown extension, client-only EKU, authorityKeyIdentifier absent or in issuer+serial form, no key usage) under pools {A}, nil, {}; 9 role-confusion chains (TCB-signing / intermediate / root certificate as leaf, with SGX extension added, QE report signed by that certificate's key) and 4 PCK-named leaves under the trusted Platform CA that are not PCK certificates (no SGX extension, another OID in its place, truncated or empty SGX value); Intel's sample quote under {A}; 28 root-of-trust configurations (files on a temp disk: valid, two roots, empty, garbage, PEM without certificates, truncated, DER, missing, directory; inline PEM; tape-chosen mixes). " +
 			"distinct = case name (every case except the listed-root controls carries a PKI or disk fault)",
 		Assumptions: []string{
